@@ -390,6 +390,10 @@ class HeaderExtensionObject(BaseObject):
             if size < 1:
                 raise ASFHeaderError("invalid size in header extension")
             obj = BaseObject._get_object(guid)
+            if isinstance(obj, HeaderExtensionObject):
+                # only valid as a child of the header object; crafted files
+                # nest them until the interpreter's recursion limit is hit
+                raise ASFHeaderError("nested header extension object")
             obj.parse(asf, data[22 + datapos + 24:22 + datapos + size])
             self.objects.append(obj)
             datapos += size
